@@ -44,6 +44,10 @@ type c25Case struct {
 	Files int       `json:"files"`
 	Init  []c25Step `json:"init"` // prog steps applied before the server starts
 	Steps []c25Step `json:"steps"`
+	// BurstAtStop: lines are appended to every file right before the server is
+	// stopped, without waiting for them to be read: whatever the streams still
+	// read is counted once by the tailer and once by the loader
+	BurstAtStop int `json:"burst_at_stop,omitempty"`
 }
 
 func c25ProgSource(prog, edit, tag string) string {
@@ -382,8 +386,26 @@ func runC25x(c c25Case) *vstat.Failure {
 			}
 		}
 	}
-	// let the (busy-polling) streams read what was appended last before they are cancelled
-	time.Sleep(3 * time.Millisecond)
+	if c.BurstAtStop > 0 {
+		for fi := range fds {
+			var sb strings.Builder
+			for k := 0; k < c.BurstAtStop; k++ {
+				fmt.Fprintf(&sb, "late %d\n", k)
+			}
+			if _, err := fds[fi].WriteString(sb.String()); err != nil {
+				panic(err)
+			}
+			// the model counts them as written; the final reconciliation accepts
+			// that not all of them were read before the streams were cancelled
+			expectTotal += int64(c.BurstAtStop)
+			if ps["e"].running != "" {
+				eExpect += uint64(c.BurstAtStop)
+			}
+		}
+	} else {
+		// let the (busy-polling) streams read what was appended last before they are cancelled
+		time.Sleep(3 * time.Millisecond)
+	}
 	stopped = true
 	stop()
 	return reconcile(len(c.Steps), true)
@@ -432,6 +454,10 @@ func TestC25(t *testing.T) {
 			var c c25Case
 			defer st.Guard(func() any { return c })
 			c.Files = rapid.IntRange(1, 3).Draw(rt, "files")
+			if rapid.Bool().Draw(rt, "burst") {
+				c.BurstAtStop = rapid.SampledFrom([]int{5, 50, 400}).Draw(rt, "nburst")
+				st.Class("lines-appended-right-before-the-stop")
+			}
 			progStep := func(label string) c25Step {
 				p := rapid.SampledFrom([]string{"e", "e", "e", "b", "k"}).Draw(rt, label+"prog")
 				ed := rapid.SampledFrom([]string{"v1", "v2", "same", "broken", "remove", "kind"}).Draw(rt, label+"edit")
